@@ -325,6 +325,9 @@ func (x *tr) staticCond(s *state, e ast.Expr) (bool, bool) {
 		if b, ok := s.sbools[exprStr(e)]; ok && x.p.cfg.ext == "fft" {
 			return b, true
 		}
+		if b, ok := x.fastFlag(e); ok {
+			return b, true
+		}
 	case *ast.ParenExpr:
 		return x.staticCond(s, e.X)
 	case *ast.Ident:
@@ -338,10 +341,6 @@ func (x *tr) staticCond(s *state, e ast.Expr) (bool, bool) {
 		if e.Op == token.NOT {
 			b, ok := x.staticCond(s, e.X)
 			return !b, ok
-		}
-	case *ast.SelectorExpr:
-		if b, ok := x.fastFlag(e); ok {
-			return b, true
 		}
 	case *ast.BinaryExpr:
 		switch e.Op {
